@@ -30,15 +30,28 @@ def canon_msgs(out):
     return " ; ".join(res)
 
 
-def to_model_lines(impl_lines, impl_out):
-    """build the ml.* scenario for the Lean server model from an l.* scenario and the real parser's outputs"""
+def to_model_lines(impl_lines, impl_out, prod_store=None):
+    """build the ml.* scenario for the Lean server model from an l.* scenario and the real parser's outputs.
+    prod_store(path) -> bool: whether, by construction of the scenario, the production constructor must find a usable cache there"""
     ml, exp, idx = [], [], []
     last_parse = None
+    fresh = True
     for i, (l, o) in enumerate(zip(impl_lines, impl_out)):
         f = vlib.decode_line(l)
         op = f[0]
         if op == "l.parse":
             last_parse = o; continue
+        if op == "l.startprod":
+            st = "T" if prod_store(f[1]) else "F"
+            ml.append(vlib.line("ml.start", "T", st, "") if fresh else vlib.line("ml.restart", st))
+            exp.append(o); idx.append(i); fresh = False
+            continue
+        if op == "l.startfaulty":
+            ml.append(vlib.line("ml.start", f[1], "T", f[2])); exp.append(o); idx.append(i); fresh = False
+            continue
+        if op == "l.startfile":
+            ml.append(vlib.line("ml.start", "T", "T", "") if fresh else vlib.line("ml.restart", "T")); exp.append(o); idx.append(i); fresh = False
+            continue
         if op in ("l.open", "l.change"):
             ml.append(vlib.line("ml.edit", f[1], *pkgs_fields(last_parse)))
         elif op == "l.init":
